@@ -125,6 +125,7 @@ package message
 //@   maypanic
 //@   ensures forall j int :: 0 <= j && j < len(messages) ==> stamped(h, messages[j].ctx) [every-message-stamped]
 //@   inv loop 1: forall j int :: 0 <= j && j <= rangeindex ==> stamped(h, messages[j].ctx) [processed-are-stamped]
+//@   panics-ensures exists j int :: 0 <= j && j < len(messages) && messages[j] == nil [panics-only-on-a-nil-message]
 //@   modifies field(Message.ctx)
 
 //@ func (disabledPublisher).Publish
